@@ -929,7 +929,7 @@ func (t *c15Trace) monitors(fl []string, class string, pre c15Snap, preLocks []l
 //
 // Model independent.  For every Distribute call of the block op (c15Batch) and every gauge whose distributed
 // coins changed in it, the payout is recomputed from the REAL state before the call:
-//   * asset gauge (denom d, duration D): the qualifying locks are the locks of the real lockup table that hold
+//   - asset gauge (denom d, duration D): the qualifying locks are the locks of the real lockup table that hold
 //     d and have Duration >= D — the rule of GetLocksLongerThanDurationDenom (an inclusive range over the
 //     denom/duration index, over BOTH the not-unlocking and the unlocking prefix: a lock counts until it is
 //     withdrawn after maturity), re-derived here over GetPeriodLocks, not taken from the function under test.
@@ -938,7 +938,8 @@ func (t *c15Trace) monitors(fl []string, class string, pre c15Snap, preLocks []l
 //     Every qualifying lock l is due exactly  floor(remain_c * amount_l / (S * e))  of every remaining coin c,
 //     S the qualifying locks' total, e = 1 (perpetual) or NumEpochsPaidOver - FilledEpochs: the code's own
 //     rounding, no tolerance; remain = the gauge's coins at the call minus what it had distributed before.
-//   * rollapp gauge: what it distributed goes to the rollapp's owner.
+//   - rollapp gauge: what it distributed goes to the rollapp's owner.
+//
 // Each recipient's payment in the call must equal the sum of what it is due; anybody else gets nothing.
 // Additionally, at the incentives module's epoch end every active asset gauge with a qualifying lock that is
 // due a positive amount must have distributed.
